@@ -72,6 +72,6 @@ theorem C04_delete_propagates (c : Cfg) (e : KV) (old : Bytes) (o : Ver)
   rw [h2]; simp [join, Ver.max, hbeats]
 
 /-- non-vacuity: the configuration that overflowed before the fix (40000 days, 1 h cut-off) -/
-example : rdmc 3456000000000000000 3600000000000 = 3455996400000000000 := by decide
+example : rdmc 3456000066710405120 3600000000000 = 3455996466710405120 := by decide
 
 end Ls.C04
